@@ -79,14 +79,22 @@ def pad_shapes(ctx):
     """Manifests whose bstr-wrapped length sits exactly at the CBOR head-width boundaries."""
     out = []
     targets = [255, 256, 257, 258, 259] + ([] if ctx.quick else [65535, 65536, 65537, 65538, 65539, 65540])
+    # ... and at the block sizes of hash functions and I/O buffers (64, 128, 136 = SHAKE256 / SHA3 rate, 168 = SHAKE128 rate, 512,
+    # 4096, 8192 and their multiples): the hashed object is the wrapped manifest / the wrapped severed member
+    blocks = [128, 136, 168, 512, 4095, 4096, 4097, 8192] + ([] if ctx.quick else [192, 272, 336, 1024, 2048, 12288, 16384, 16385, 65536 - 4096])
     k = 0
-    for t in targets:
+    for t in targets + blocks:
         for m in (["suit-install"], ["suit-text", "suit-payload-fetch"]):
             k += 1
             sh = {"walg": envgen.ALGS[k % 5], "wsup": "wrong", "seq": 1, "pad": t,
                   "mem": {x: ["sev", envgen.ALGS[(k + 2) % 5], "wrong"] for x in m}, "cid": None, "version": None,
                   "pay": [], "deps": [], "imgs": []}
             out.append(sh)
+    for t in blocks:   # the severed text member at the same sizes
+        k += 1
+        out.append({"walg": envgen.ALGS[k % 5], "wsup": "none", "seq": 2, "pad": None, "sevpad": t,
+                    "mem": {"suit-text": ["sev", envgen.ALGS[(k + 1) % 5], "wrong"], "suit-install": ["sev", envgen.ALGS[(k + 3) % 5], "none"]},
+                    "cid": None, "version": None, "pay": [], "deps": [], "imgs": []})
     return out
 
 
